@@ -173,6 +173,19 @@ def check_annotation_immutability(ctx, r, tag):
                 if not is_cm:
                     ctx.ok(tag, f.qualname, f"{how} on an ordinary instance (`{rn}`), not an annotation class")
                     continue
+            if rn is not None and rn not in f.params and isinstance(tgt, ast.Name):
+                # a local bound only to freshly constructed ordinary objects (an exception that gets extra attributes, a record): not a class
+                defs_ = c05._assignments_to(f, rn)
+                def _plain_ctor(v):
+                    if not isinstance(v, ast.Call):
+                        return False
+                    t_ = m.resolve_call(f, v)
+                    if t_.kind == "class":
+                        return m.metaclass_of(t_.target) is None and not m.is_metaclass(t_.target)
+                    return t_.kind == "ext" and isinstance(t_.target, str) and t_.target.startswith("builtins.") and t_.target.endswith(("Error", "Exception", "Warning"))
+                if defs_ and all(d[2] is None and _plain_ctor(d[1]) for d in defs_):
+                    ctx.ok(tag, f.qualname, f"{how} on `{rn}`: an ordinary object constructed in this call, not an annotation class")
+                    continue
             ctx.bad(tag, f, _stmt_of(f, n) or n,
                     f"{how}: a verdict-relevant attribute of an annotation class object is written after the class was "
                     "constructed; annotation objects are shared (aliases, typing caches), so every later check against "
